@@ -12,7 +12,7 @@ import (
 func HarnessC26() {
 	maxN := 3
 	if zz.Tier() == 1 {
-		maxN = 4
+		maxN = 5
 	}
 	n := zz.IntRange(0, maxN)
 	b := zz.Bytes(n)
